@@ -277,8 +277,19 @@ def sp_let(eng, node, st):
 def sp_psum(eng, node, st):
     """psum(xs, n): sum of the first n elements of an integer list"""
     from . import models
-    xs = eng.ev(node.args[0], st)
     n = to_int(eng.ev(node.args[1], st))
+    if isinstance(node.args[0], ast.Lambda):
+        # psum(lambda s: term, n) with an explicit length bound as third argument
+        names, consts, saved = _bind_lambda(eng, node.args[0], st)
+        try:
+            body = eng.ev(node.args[0].body, st)
+        finally:
+            _unbind(st, saved)
+        models._CUR[0] = st
+        a = z3.Lambda(consts, to_int(body)) if st.ghost.get('qdepth', 0) > 0 else models.lam(consts, to_int(body))
+        ln = to_int(eng.ev(node.args[2], st)) if len(node.args) > 2 else n
+        return vint(models.psum(eng, st, a, ln)(a, n))
+    xs = eng.ev(node.args[0], st)
     if not (isinstance(xs.k, tuple) and xs.k[0] == 'list' and xs.k[1] == 'int'):
         raise ContractError("psum() needs a list of int")
     a = eng.list_arr(st, xs)
